@@ -12,6 +12,29 @@ CLAIMED = {
     note="Trusted: Lean kernel + standard axioms; harness/driver; scipy find_peaks default behaviour modelled by its contract; float rounding (near ties within 1e-7 relative are skipped and counted).",
     technique="Lean 4 theorems over an executable model + table bridge + differential correspondence",
     design="5/C16"),
+ "C08": dict(
+    text="Theorems over the Lean peak model (soundness of the local-maximum search, completeness for strict maxima, peak = highest interior maximum of the slice, "
+         "absent iff no interior maximum, peaks track the last range after ANY sequence of range updates and mask writes); tied to the code by differential execution on "
+         "HvsrCurve/HvsrDiffuseField/HvsrTraditional/HvsrAzimuthal incl. update sequences, plus a brute-force oracle of the property sentence on every reported peak.",
+    note="Trusted: scipy find_peaks default behaviour (modelled by contract, differentially tested); find_peaks keyword options not modelled; completeness for plateau maxima is tested, not proved.",
+    technique="Lean 4 theorems (induction over reachable states) + differential correspondence + brute-force oracle", design="5/C08"),
+ "C05": dict(
+    text="Theorems: mean/std = textbook estimators (n-1, log space), NaN peaks excluded, frame/restriction property (every statistic equals that of the object holding the accepted "
+         "windows only), frequency/period reciprocity, +-n symmetry, alias table; model tied to the code by op-by-op mirrored random histories (range updates, FDWRA, time masks, manual "
+         "rejections) comparing every statistic under both distributions, by poisoned-row/rebuilt-object oracles and by the DISTRIBUTION_MAP bridge.",
+    note="Trusted: numpy nansum/cov semantics mirrored; float rounding (1e-8 relative); undefined statistics (0/0) are Option.none in the model.",
+    technique="Lean 4 theorems + history correspondence + table bridge", design="5/C05"),
+ "C06": dict(
+    text="Theorems over the mirrored FDWRA loop: one iteration keeps exactly the accepted windows with lower < f < upper, masks never re-accept (induction over iterations), "
+         "1 <= iterations <= max_iterations, count returned at the limit, limits 0.01/0.01; tied to the code by return value + both masks + per-iteration DEBUG trace on traditional and "
+         "azimuthal objects and by the limits/operator bridge; permutation and rescaling invariance are checked on the implementation (not proved).",
+    note="Trusted: float rounding at zero guards / convergence limits / bounds (such runs are detected from the implementation's own trace, skipped and counted); permutation and scale invariance are tests.",
+    technique="Lean 4 theorems (loop invariant) + differential correspondence with trace + table bridge", design="5/C06"),
+ "C11": dict(
+    text="Theorems: Cheng weights are positive, one per accepted window and sum to 1; zero count is refused; single azimuth reduces to the traditional mean and the Cheng denominator "
+         "to (N-1)/N; model tied to the code by azimuthal histories with unequal acceptance (all statistics, both distributions) and probes (order of azimuths, mean of means, cov diagonal, pooled reduction).",
+    note="Known finding C11-a (NaN peaks counted in the weights after a time-domain mask) is reported as KNOWN-FINDING. mean-of-means / equal-count reduction are tested on the implementation, proved only for one azimuth.",
+    technique="Lean 4 theorems + history correspondence", design="5/C11"),
 }
 PENDING_REASON = "check not built yet in this round (work in progress; design in DESIGN.md section 5)"
 
